@@ -323,6 +323,25 @@ CHECKS.update({
     ),
 })
 
+CHECKS.update({
+    "C09": (
+        "exploration",
+        "differential property testing of the eight ways to hand a label to "
+        "load/loadu/loads with generated trailing bytes (buffer-boundary placement of "
+        "the first undecodable byte), token-position oracle via a counting lexer; dump "
+        "targets compared with dumps()",
+        "Generated ASCII labels ending in END are followed by a separator and by "
+        "binary / UTF-8 / NUL / truncated-multibyte / long unbroken tails; each file is "
+        "loaded through str path, Path, file: URL, text stream, binary file, BytesIO, "
+        "str and bytes; all must equal the label's own module and never request a "
+        "token past END. Dumps to six target kinds must write exactly dumps() and "
+        "return the count written. Sampled.",
+        "Trusted: real files under .work/; UTF-8 default encoding; tails up to "
+        "40 000 bytes (quick) / 1 000 000 bytes (thorough).",
+        "DESIGN.md 4/C09",
+    ),
+})
+
 PENDING = {}   # id -> reason while a check is not built yet
 
 
